@@ -90,7 +90,7 @@ pub fn run_cases(args: &Args, rep: &mut Report, cases: Vec<Case>, plan: &Plan) {
         }
         .max(Duration::from_millis(300));
         let c = &cases[i];
-        let d = explore::iterative(&plan.ks, plan.env, plan.fault, inner_threads, plan.max_execs_per_case, share, || (c.exec)(false));
+        let d = explore::iterative(&c.label, &plan.ks, plan.env, plan.fault, inner_threads, plan.max_execs_per_case, share, || (c.exec)(false));
         results.lock().unwrap().push((i, d));
     };
     if across {
